@@ -53,6 +53,8 @@ class Attribute(_expression.Any):
 
     def __eq__(self, other: object) -> bool:
         if isinstance(other, Attribute):
+            if isinstance(self, Constant) != isinstance(other, Constant):
+                return False  # A constant is never equal to a field, even if the type and the name match.
             return (self._data_type == other._data_type) and (self._name == other.name)
         return NotImplemented  # pragma: no cover
 
